@@ -4,7 +4,7 @@ manifest, which check reported it at the first evaluation and which reports it n
 import json, glob, os
 V = '/verif'
 rows = []
-for d in sorted(glob.glob(V + '/seeded/C??_m?') + glob.glob(V + '/seeded/C??_r2m?') + glob.glob(V + '/seeded/C??_r3m?')):
+for d in sorted(glob.glob(V + '/seeded/C??_m?') + glob.glob(V + '/seeded/C??_r2m?') + glob.glob(V + '/seeded/C??_r3m?') + glob.glob(V + '/seeded/C??_r4m?')):
     m = json.load(open(d + '/meta.json'))
     first = ', '.join(m.get('first_evaluation', {}).get('caught_by') or []) or '-'
     fin = m.get('final_evaluation', {})
@@ -16,7 +16,7 @@ out = ['# Independently seeded changes', '',
        'Each directory holds `patch.diff` (against /repo), the author\'s demonstration test and `meta.json`',
        '(the author\'s description, how the change was confirmed here, which checks reported it). The authors',
        'saw only the text of one property and a scratch worktree of /repo (round 2, `_r2m`, additionally a list of the',
-       'round-1 ideas to avoid; round 3, `_r3m`, a list of all 80 earlier ones). `fixed_*` directories are reverts',
+       'round-1 ideas to avoid; rounds 3 and 4, `_r3m` / `_r4m`, a list of all earlier ones). `fixed_*` directories are reverts',
        'of the defects repaired in /repo; `overlap_extra`, `wire_x_*`, `wire_h_*` are further changes invented',
        'while strengthening the checks (x = breaks the property, h = harmless; results in their meta.json).',
        '', 'To re-run one: `python3 tools/evalseed.py <Cxx> seeded/<id>` (applies the patch to /repo with',
